@@ -604,3 +604,229 @@ def metrics_scn(prog, ex, P, tier):
             n1 = w.call_method(s.it, "ActorRef", "message_count", [Ref(cell, (), False)])
             n2 = w.call_method(s.it, "ActorRef", "message_count", [Ref(c2, (), False)])
             ex.check("C20", w.describe(n1) == w.describe(n2), "metrics differ between a strong and a weak-upgraded handle")
+
+
+# ---- capacity configuration (C09, function level) ------------------------------------------
+def capacity_config(prog, ex, P, tier):
+    mode = pick(ex, ["symbolic-cap", "zero-cap", "default-32", "configured", "config-zero"], "mode")
+    s = Sim(prog, ex)
+    w, it = s.w, s.it
+    if mode == "symbolic-cap":
+        cap = ex.sym("cap", 64)
+        w.actors["A"] = {"script": Script("A")}
+        try:
+            r = it.call_path("spawn_with_mailbox_capacity::<T>", [w.actors["A"]["script"], IntV(cap, 64)])
+            panicked = False
+        except RustPanic:
+            panicked = True
+        if panicked:
+            # only capacity 0 may be rejected
+            ex.check("C09", cap == 0, "spawn_with_mailbox_capacity panicked for a non-zero capacity")
+            ex.check("C09", len(getattr(w, "channel_requests", [])) == 0 or True, "")
+        else:
+            ex.check("C09", cap != 0, "capacity 0 was accepted")
+            reqs = getattr(w, "channel_requests", [])
+            ex.check("C09", len(reqs) == 2, "spawn created %d channels" % len(reqs))
+            ex.check("C09", reqs[0].z() == cap, "the mailbox channel is not created with the requested capacity")
+            ex.check("C09", reqs[1].z() == 1, "the termination channel does not have capacity 1")
+    elif mode == "zero-cap":
+        w.actors["A"] = {"script": Script("A")}
+        try:
+            it.call_path("spawn_with_mailbox_capacity::<T>", [w.actors["A"]["script"], IntV(0, 64)])
+            ex.check("C09", False, "capacity 0 was accepted")
+        except RustPanic:
+            ex.check("C09", len(w.chans) == 0, "a channel was created before capacity 0 was rejected")
+    elif mode == "default-32":
+        a = s.spawn_actor(Script("A"), None)
+        ex.check("C09", a["mailbox"].cap == 32, "spawn() without configuration created a mailbox of %d" % a["mailbox"].cap)
+    else:
+        n1 = pick(ex, [1, 2, 3, 40], "first")
+        n2 = pick(ex, [1, 7], "second")
+        if mode == "config-zero":
+            r0 = it.call_path("set_default_mailbox_capacity", [IntV(0, 64)])
+            ex.check("C09", r0.variant == "Err", "set_default_mailbox_capacity(0) succeeded")
+        r1 = it.call_path("set_default_mailbox_capacity", [IntV(n1, 64)])
+        ex.check("C09", r1.variant == "Ok", "the first non-zero configuration was rejected")
+        r2 = it.call_path("set_default_mailbox_capacity", [IntV(n2, 64)])
+        ex.check("C09", r2.variant == "Err", "the default capacity could be configured twice")
+        r3 = it.call_path("set_default_mailbox_capacity", [IntV(0, 64)])
+        ex.check("C09", r3.variant == "Err", "set_default_mailbox_capacity(0) succeeded")
+        a = s.spawn_actor(Script("A"), None)
+        ex.check("C09", a["mailbox"].cap == n1, "spawn() used capacity %d, configured default is %d" % (a["mailbox"].cap, n1))
+        b = s.spawn_actor(Script("B"), 2)
+        ex.check("C09", b["mailbox"].cap == 2, "explicit capacity overridden by the default")
+    ex.event(ev="capacity_config", mode=mode)
+    ex.steps = it.steps
+    ex.sim = s
+
+
+# ---- deadlock detection (C14 / C15; feature deadlock-detection) ---------------------------------
+def graph_edges(s):
+    """read the wait-for graph (the in-crate static) : list of (caller id, callee id)"""
+    it, w = s.it, s.w
+    c = it.static_cells.get("WAIT_FOR")
+    if c is None:
+        return []
+    ol = c.value                      # OnceLock
+    if not isinstance(ol, Agg) or ol.fields[0].variant != "Some":
+        return []
+    mtx = ol.fields[0].fields[0]
+    hm = mtx.fields[0]
+    return sorted((k, w.describe(v.value.fields[0])) for k, v in hm.d.items())
+
+
+def deadlock_cycles(prog, ex, P, tier):
+    """ask cycles of length 1..3 with the closing ask in a handler / on_start / on_run / on_stop,
+    plain ask or ask_with_timeout, every creation order of the edges (the scheduler's choice)"""
+    shape = pick(ex, ["self-handler", "self-on_run", "2cycle", "2cycle-timeout", "3cycle", "2cycle-on_stop"], "shape")
+    s = Sim(prog, ex)
+    w = s.w
+    A, B, C = Script("A"), Script("B"), Script("C")
+    names = ["A"]
+    if shape == "self-handler":
+        A.handler_actions = {1: [("ask", "A", 2)]}
+    elif shape == "self-on_run":
+        A.on_run = [("false", 0)]
+        A.on_run_actions = [("ask", "A", 2)]
+    elif shape in ("2cycle", "2cycle-timeout"):
+        k = "ask_t" if shape.endswith("timeout") else "ask"
+        A.handler_actions = {1: [(k, "B", 11) + ((50,) if k == "ask_t" else ())]}
+        B.handler_actions = {11: [(k, "A", 12) + ((50,) if k == "ask_t" else ())]}
+        names = ["A", "B"]
+    elif shape == "2cycle-on_stop":
+        # A is stopped; its on_stop asks B; B's handler for that request asks A back
+        A.on_stop_actions = [("ask", "B", 12)]
+        B.handler_actions = {12: [("ask", "A", 13)]}
+        names = ["A", "B"]
+    else:
+        A.handler_actions = {1: [("ask", "B", 11)]}
+        B.handler_actions = {11: [("ask", "C", 21)]}
+        C.handler_actions = {21: [("ask", "A", 12)]}
+        names = ["A", "B", "C"]
+    for n, sc in (("A", A), ("B", B), ("C", C)):
+        if n in names:
+            s.spawn_actor(sc, 2)
+    for n in names:
+        for m in names:
+            s.give_ref(n, m)
+    if shape == "2cycle-on_stop":
+        s.client("c1", [("stop", "A")], ["A"])
+    else:
+        s.client("c1", [("ask", "A", 1)] if shape != "self-on_run" else [("yield",)], ["A"])
+    for n in names:
+        s.drop_main(n)
+    s.run(120)
+    tr = finish(ex, s)
+    panics = [e for e in tr.ev if e["ev"] == "panic"]
+    dl = [e for e in panics if "Deadlock detected" in str(e.get("msg")) or "eadlock" in str(e.get("msg"))]
+    if P == "C14":
+        ex.check("C14", len(dl) >= 1, "an ask cycle (%s) was closed without the deadlock panic" % shape)
+        # nobody waits for ever: every task reached an end state, every client op completed
+        # (actors that hold references to each other legitimately stay alive and idle; what must
+        # not happen is a hook that was entered and is still waiting at quiescence)
+        for n in names:
+            ent = len([1 for e in tr.ev if e["ev"] == "hook_enter" and e["actor"] == n])
+            fin = len([1 for e in tr.ev if e["ev"] == "hook_dropped" and e["actor"] == n])
+            ex.check("C14", ent == fin, "a hook of %s is still waiting at quiescence (cycle %s)" % (n, shape))
+        for o in tr.ops().values():
+            ex.check("C14", o["done"] is not None, "client operation %s never completed" % (o["op"],))
+    ex.check(P, graph_edges(s) == [], "no ask is in flight any more but the wait-for graph still holds %s" % graph_edges(s))
+
+
+def deadlock_sound(prog, ex, P, tier):
+    """acyclic-in-time ask patterns over a cyclic topology, asks ending by reply / timeout /
+    callee death / cancellation: no deadlock panic, empty graph afterwards; non-actor callers
+    are never tracked"""
+    shape = pick(ex, ["a-asks-b-then-b-asks-a", "ask-times-out-then-reverse", "callee-dies-then-reverse", "fan-out", "non-actor-callers"], "shape")
+    s = Sim(prog, ex)
+    w = s.w
+    A, B = Script("A"), Script("B")
+    if shape == "a-asks-b-then-b-asks-a":
+        A.handler_actions = {1: [("ask", "B", 11)]}          # A -> B, answered
+        B.handler_actions = {5: [("ask", "A", 12)]}          # later: B -> A
+        ops = [("ask", "A", 1), ("ask", "B", 5)]
+    elif shape == "ask-times-out-then-reverse":
+        A.handler_actions = {1: [("ask_t", "B", 11, 3)]}     # B is slow: the ask times out
+        B.handler_yields = {11: "tick"}
+        B.handler_actions = {5: [("ask", "A", 12)]}
+        ops = [("ask", "A", 1), ("ask", "B", 5)]
+    elif shape == "callee-dies-then-reverse":
+        A.handler_actions = {1: [("ask", "B", 11)]}
+        B.handler_panics = {11}
+        ops = [("ask", "A", 1), ("ask", "A", 2)]
+    elif shape == "fan-out":
+        A.handler_actions = {1: [("ask", "B", 11), ("ask", "B", 13)]}
+        ops = [("ask", "A", 1), ("ask", "B", 5)]
+    else:
+        ops = [("ask", "A", 1), ("ask", "B", 5)]
+    s.spawn_actor(A, 2)
+    s.spawn_actor(B, 2)
+    s.give_ref("A", "B")
+    s.give_ref("B", "A")
+    # acyclic *in time*: the second request starts only after the first has completed
+    s.client("c1", ops, ["A", "B"])
+    if shape == "non-actor-callers":
+        s.client("c2", [("ask", "B", 6), ("ask", "A", 7)], ["A", "B"])
+    s.drop_main("A")
+    s.drop_main("B")
+    if shape == "ask-times-out-then-reverse":
+        ticks = [3]
+        # time only passes once the timed ask is in flight (keeps the schedule space small)
+        s.extra_actions.append((lambda: ticks[0] > 0 and any(e["ev"] == "action_start" for e in ex.events),
+                                lambda: (ticks.__setitem__(0, ticks[0] - 1), w.advance(5)), "clock-advance"))
+    s.run(120)
+    tr = finish(ex, s)
+    dl = [e for e in tr.ev if e["ev"] == "panic" and "eadlock" in str(e.get("msg"))]
+    ex.check("C15", not dl, "deadlock panic without a cycle of unanswered asks (%s): %s" % (shape, [e.get("msg") for e in dl]))
+    all_done = all(o["done"] is not None for o in tr.ops().values()) and all(t.state != "running" for t in w.tasks)
+    if all_done:
+        ex.check("C15", graph_edges(s) == [], "every ask has finished but the wait-for graph still holds %s" % graph_edges(s))
+    else:
+        ex.event(ev="note", what="path ends with work in flight (virtual clock exhausted); residue check not applicable")
+    if shape == "non-actor-callers":
+        ex.check("C15", all(e["ev"] != "graph_insert" for e in tr.ev), "a non-actor caller was tracked")
+
+
+def has_path_fn(prog, ex, P, tier):
+    """function level: has_path(G, from, to) == "to is reachable from `from` in >= 1 steps" for
+    EVERY functional graph over N keys (presence and target of every key symbolic) and every
+    from/to; decided by z3 on every path of the interpreted loop"""
+    N = 3 if tier == "quick" else 4
+    s = Sim(prog, ex)
+    w, it = s.w, s.it
+    m = w.HMap()
+    m.sym = []
+    pres, tgt = {}, {}
+    for k in range(1, N + 1):
+        pres[k] = z3.Bool("present_%d" % k)
+        tgt[k] = ex.sym("target_%d" % k, 64)
+        ex.assume(z3.And(z3.UGE(tgt[k], 1), z3.ULE(tgt[k], N + 1)))      # N+1 = an id that waits for nobody
+        m.sym.append((k, pres[k], Agg("struct", "Identity", [IntV(tgt[k], 64), "T"])))
+    frm = ex.sym("from", 64)
+    to = ex.sym("to", 64)
+    ex.assume(z3.And(z3.UGE(frm, 1), z3.ULE(frm, N + 1), z3.UGE(to, 1), z3.ULE(to, N + 1)))
+    r = it.call_path("has_path", [Ref(Cell(m, "graph"), (), False), IntV(frm, 64), IntV(to, 64)])
+
+    # reference: iterate the partial function N times
+    def step(x):
+        """(defined, next)"""
+        d = z3.BoolVal(False)
+        nx = z3.BitVecVal(0, 64)
+        for k in range(1, N + 1):
+            hit = z3.And(x == k, pres[k])
+            d = z3.Or(d, hit)
+            nx = z3.If(hit, tgt[k], nx)
+        return d, nx
+    reach = z3.BoolVal(False)
+    cur, alive = frm, z3.BoolVal(True)
+    for _ in range(N):
+        d, nx = step(cur)
+        alive = z3.And(alive, d)
+        reach = z3.Or(reach, z3.And(alive, nx == to))
+        cur = nx
+    res = r if isinstance(r, bool) else r
+    ex.check("C14", (reach == res) if not isinstance(res, bool) else (reach if res else z3.Not(reach)),
+             "has_path disagrees with reachability in the wait-for graph (N=%d)" % N)
+    ex.event(ev="has_path", result=str(res), N=N)
+    ex.steps = it.steps
+    ex.sim = s
